@@ -136,8 +136,12 @@ def model_err_class(payload):
 # --------------------------------------------------------------------------
 # similarity
 # --------------------------------------------------------------------------
+def _dt(case):
+    return np.float32 if case.get("dtype") == "f32" else float
+
+
 def build_data(case):
-    a = np.array(case["data"], dtype=float)
+    a = np.array(case["data"], dtype=_dt(case))
     if case["data_form"] == "series":
         return a.reshape(len(case["data"]), case["d"])
     if case["data_form"] == "pointer":
@@ -153,13 +157,13 @@ def build_vocab(case):
             v.add(f"K{i}", np.array(r, dtype=float))
         return v
     if f == "array2":
-        return np.array(vs, dtype=float).reshape(len(vs), case["vd"])
+        return np.array(vs, dtype=_dt(case)).reshape(len(vs), case["vd"])
     if f == "array1":
-        return np.array(vs[0], dtype=float)
+        return np.array(vs[0], dtype=_dt(case))
     if f == "list_arrays":
-        return [np.array(r, dtype=float) for r in vs]
+        return [np.array(r, dtype=_dt(case)) for r in vs]
     if f == "tuple_arrays":
-        return tuple(np.array(r, dtype=float) for r in vs)
+        return tuple(np.array(r, dtype=_dt(case)) for r in vs)
     if f == "list_lists":
         return [list(map(float, r)) for r in vs]
     if f == "list_pointers":
@@ -231,6 +235,7 @@ def exec_sim(ctx, case, ask=True):
                 ctx.fail(case, f"shape {impl[1]}", f"shape {want_shape}", where="similarity-shape")
             else:
                 bad = None
+                tol = 1e-5 if case.get("dtype") == "f32" else TOL      # float32 inputs are computed in float32
                 for t, x in enumerate(data_rows):
                     xx = fdot(x, x)
                     for i, v in enumerate(vs):
@@ -242,10 +247,10 @@ def exec_sim(ctx, case, ask=True):
                                 want, ok = 0.0, (y == 0.0)
                             else:
                                 want = float(d) / (math.sqrt(xx) * math.sqrt(vv))
-                                ok = abs(y - want) <= TOL
+                                ok = abs(y - want) <= tol
                         else:
                             want = float(d)
-                            ok = abs(y - want) <= TOL * max(1.0, abs(want))
+                            ok = abs(y - want) <= tol * max(1.0, abs(want))
                         if not ok or y != y:
                             bad = bad or (t, i, y, want)
                 if bad:
@@ -278,8 +283,9 @@ def exec_sim(ctx, case, ask=True):
         if shape != impl[1] or len(vals) != len(impl[2]):
             ctx.diff(case, f"shape {impl[1]}", f"shape {shape}", op="sim-shape")
             return
+        tolm = 1e-5 if case.get("dtype") == "f32" else TOL
         for y, r in zip(impl[2], vals):
-            if not abs(y - float(r)) <= TOL * max(1.0, abs(float(r))):
+            if not abs(y - float(r)) <= tolm * max(1.0, abs(float(r))):
                 ctx.diff(case, impl[2][:12], [str(v) for v in vals[:12]], op="sim-value")
                 return
     ctx.ask("sim", sim_tokens(case), cb)
@@ -304,6 +310,15 @@ def sim_cases(ctx, tier):
                             if n >= 2 and rng.random() < 0.3:
                                 vs[rng.randrange(n)] = list(vs[0])          # equal similarities
                             rows = [gen_vec(rng, d, mode, zero_p=0.2) for _ in range(T if df == "series" else 1)]
+                            f32 = form in ("array2", "list_arrays", "tuple_arrays") and rng.random() < 0.25
+                            if f32:
+                                # 32-bit data and vocabulary arrays (dyadic entries are exact in float32); zero rows still give 0
+                                vs = [gen_vec(rng, d, "dyadic") for _ in range(n)]
+                                rows = [gen_vec(rng, d, "dyadic", zero_p=0.3) for _ in range(T if df == "series" else 1)]
+                                yield {"op": "sim", "normalize": nz, "data_form": df, "d": d,
+                                       "data": rows if df == "series" else rows[0],
+                                       "vocab_form": form, "vd": d, "vectors": vs, "dtype": "f32"}
+                                continue
                             if nz and rng.random() < 0.2:
                                 # very small but exactly representable magnitudes: the cosine does not depend on scale
                                 sc_ = 2.0 ** -rng.choice([60, 64, 70])
